@@ -150,6 +150,11 @@ def run_scenario(seed, shape, entry, delay_steps, tick, policy, depth,
         clock_events = []
         res['clock_events'] = clock_events
 
+        # the names the jobs go by: now and then with a blank at either end
+        # (the controller files, reports and stops a job under the text given)
+        NAME1 = 'job1 ' if (delay_steps + early_steps) % 5 == 2 else 'job1'
+        NAME_E = ' early' if early_steps % 3 == 1 else 'early'
+
         def wrap(fn):
             def stepped():
                 inst['cur'] = s.steps
@@ -174,16 +179,16 @@ def run_scenario(seed, shape, entry, delay_steps, tick, policy, depth,
             if not via_web:
                 job = ScriptJob.from_string(SHAPES[shape])
                 assert job.program is not None, job.compile_errors
-                if name == 'job1':
+                if name == NAME1:
                     instrument(job)
-                if background and name == 'job1':
+                if background and name == NAME1:
                     return job, jc.spawn_job(job, name)
                 return job, jc.add_job(job, name)
             got = []
             orig_add = jc.add_job
 
             def add_job(job, job_name=None):
-                if name == 'job1':
+                if name == NAME1:
                     instrument(job)
                 got.append(job)
                 got.append(orig_add(job, job_name))
@@ -195,7 +200,7 @@ def run_scenario(seed, shape, entry, delay_steps, tick, policy, depth,
             finally:
                 del jc.add_job
             return got[0], got[1]
-        job1, agent1 = start('job1')
+        job1, agent1 = start(NAME1)
         agent2 = None
         if with_successor:
             agent2 = jc.add_job(ScriptJob.from_string(SUCCESSOR), 'job2')
@@ -212,7 +217,7 @@ def run_scenario(seed, shape, entry, delay_steps, tick, policy, depth,
             if entry == 'request_stop':
                 job1.request_stop()
             elif entry == 'stop_job':
-                app.stop_script('job1')
+                app.stop_script(NAME1)
             elif entry == 'stop_current':
                 app.stop_current()
             else:
@@ -233,7 +238,7 @@ def run_scenario(seed, shape, entry, delay_steps, tick, policy, depth,
             for _ in range(max(early_delay, 0) % 40):
                 s.switch('driver')
             agent_b = jc.spawn_job(ScriptJob.from_string(EARLY['finite']),
-                                   'job1')
+                                   NAME1)
             res['restart_handle_is_new'] = agent_b is not agent1
         if early:
             # ... or a little later, while the stopped job winds down and the
@@ -249,7 +254,7 @@ def run_scenario(seed, shape, entry, delay_steps, tick, policy, depth,
                     s.switch('driver')
             for _ in range(max(early_delay, 0)):
                 s.switch('driver')
-            agent_e = jc.add_job(ScriptJob.from_string(EARLY[early]), 'early')
+            agent_e = jc.add_job(ScriptJob.from_string(EARLY[early]), NAME_E)
         s.block_until(lambda: rec1.done or
                       rec1.steps - res['own_steps_at_stop'] > OWN_STEPS,
                       'stopped job')
@@ -263,25 +268,45 @@ def run_scenario(seed, shape, entry, delay_steps, tick, policy, depth,
             # the job queued right after the stop starts (behind the
             # successor, if any), and a stop aimed at it later is not lost
             s0 = s.steps
-            s.block_until(lambda: (agent_e._thread is not None
-                                   and agent_e.is_running())
-                          or s.steps - s0 > 30000, 'early job to start')
-            res['early_started'] = agent_e._thread is not None
+            at_handover = early_steps % 4 == 0
+            if at_handover:
+                # aimed at the hand-over: the request is made the moment the
+                # controller names the job as the current one, whether or not
+                # its thread is running yet (the controller decides under its
+                # lock, so the request waits for the hand-over to finish)
+                res['stop_at_handover'] = True
+                s.block_until(lambda: jc.get_current() is agent_e
+                              or agent_e._thread is not None
+                              or s.steps - s0 > 30000, 'early job current')
+            else:
+                s.block_until(lambda: (agent_e._thread is not None
+                                       and agent_e.is_running())
+                              or s.steps - s0 > 30000, 'early job to start')
+            res['early_started'] = agent_e._thread is not None or (
+                at_handover and jc.get_current() is agent_e)
             if res['early_started']:
-                rec_e = agent_e._thread._rec
-                for _ in range(early_steps):
+                for _ in range(0 if at_handover else early_steps):
                     s.switch('driver')
                 try:
                     if early_entry == 'stop_current':
                         res['early_stop_result'] = app.stop_current()
                     elif early_entry == 'stop_job':
-                        res['early_stop_result'] = app.stop_script('early')
+                        res['early_stop_result'] = app.stop_script(NAME_E)
                     else:
                         res['early_stop_result'] = app.stop_all()
                 except sched.SchedAbort:
                     raise
                 except Exception as ex:
                     res['stop_raised'] = 'second stop: ' + repr(ex)
+                s1 = s.steps
+                s.block_until(lambda: agent_e._thread is not None
+                              or s.steps - s1 > 30000, 'early job thread')
+                if agent_e._thread is None:
+                    res['early_started'] = False
+                    rec_e = None
+                else:
+                    rec_e = agent_e._thread._rec
+            if res['early_started'] and rec_e is not None:
                 own = rec_e.steps
                 s.block_until(lambda: rec_e.done or rec_e.steps - own > OWN_STEPS,
                               'early job to stop')
